@@ -1223,3 +1223,78 @@ def _fits(res, dom):
     if dom["dt"] == 0:
         return True
     return bool(x.size == 0 or (x.min() >= 0 and x.max() < dom["dt"]))
+
+
+def c10words(rec):
+    """C10 (implementation-shaped scan model): the time-slices sequential_sum_product takes
+    at every halving step - read off the term it builds under `reflect` - are exactly the
+    schedule of spec/ScanWords.tla (whose word invariant TLC has checked)."""
+    from funsor.sum_product import sequential_sum_product
+    from funsor.terms import Variable
+    from funsor.domains import Bint
+    from collections import OrderedDict
+    from . import fast
+    T = rec["T"]
+    sig = "T=%d" % T
+
+    def slices(t, acc):
+        if isinstance(t, dict):
+            if t.get("c") == "Slice" and t["name"].startswith("time"):
+                acc.add((t["start"], t["stop"], t["step"], t["dt"]))
+            for v in t.values():
+                slices(v, acc)
+        elif isinstance(t, list):
+            for v in t:
+                slices(v, acc)
+        return acc
+    tr = Tensor(np.arange(T * 4.0).reshape(T, 2, 2), OrderedDict(time=Bint[T], x_prev=Bint[2], x_curr=Bint[2]))
+    try:
+        with reflect:
+            r = sequential_sum_product(funsor.ops.add, funsor.ops.mul, tr, Variable("time", Bint[T]), {"x_prev": "x_curr"})
+        got = slices(fast.to_ast(r), set())
+    except Exception as e:  # noqa
+        return [_verdict("C10", "declined_error", "scan_schedule:" + type(e).__name__, str(e)[:100], sig=sig)]
+    want = {tuple(s) for s in rec["expected_slices"]}
+    if got != want:
+        return [_verdict("C10", "mismatch", "scan_slice_schedule",
+                         {"missing": sorted(want - got), "unexpected": sorted(got - want)}, sig=sig)]
+    return [_verdict("C10", "agree", sig=sig)]
+
+
+def c09calls(rec):
+    """C09 (implementation-shaped model): wrap the module global `_partition` (called once per
+    iteration of partial_sum_product's loop with the leaf's factors and variables) and compare
+    the recorded calls, and the outcome, with one terminal state of spec/PspModel.tla.  TLC
+    explores every tie-break; the check (parent) requires the real run to equal at least one."""
+    import funsor.sum_product as sp
+    plus, times = fbuild.ASSOC[rec["plus"]], fbuild.ASSOC[rec["times"]]
+    factors = [fbuild.Builder().build(f) for f in rec["factors"]]
+    elim = frozenset(rec["elim"])
+    plates = frozenset(rec["plates"])
+    calls = []
+    orig = sp._partition
+
+    def wrapped(terms, sum_vars):
+        calls.append({"fins": sorted(sorted(t.inputs) for t in terms), "vars": sorted(sum_vars)})
+        return orig(terms, sum_vars)
+    sp._partition = wrapped
+    try:
+        try:
+            sp.partial_sum_product(plus, times, factors, elim, plates)
+            outcome = "done"
+        except ValueError:
+            outcome = "intractable"
+        except Exception as e:  # noqa
+            outcome = "error:" + type(e).__name__
+    finally:
+        sp._partition = orig
+    want = [{"fins": sorted(sorted(x) for x in c["fins"]), "vars": sorted(c["vars"])} for c in rec["calls"]]
+    key = _sp_sig(rec)
+    if outcome == "intractable":
+        want_cmp, got_cmp = want[:len(calls)], calls
+    else:
+        want_cmp, got_cmp = want, calls
+    match = outcome == rec["outcome"] and want_cmp == got_cmp
+    return [{"status": "_event", "event": {"problem": key, "match": match, "outcome": outcome,
+                                           "model_outcome": rec["outcome"], "calls": calls, "model_calls": want}},
+            _verdict("C09", "agree" if match else "alternative_tiebreak", sig=key)]
